@@ -162,6 +162,20 @@ theorem saved_bytes_accepted (r : PDict Int Node) (h : RegOK r) (hi : regIntsOK 
   simp only [load] at hl
   simp [classify_saveBytes r h hi hc, loadFile, readFile, hl]
 
+/-- **For a registry in any insertion order** (all of C13's domain with printable integers): the
+text parses to the value handed to `json.dumps` and loads to the canonical representative
+`canonOf r` — the same nodes, children and values (`canonReg_perm`), keys in file order, `reboot`
+cleared. -/
+theorem saved_text_round_trip_any (r : PDict Int Node) (h : RegOK r) (hi : regIntsOK r = true) :
+    JsonText.parse (saveText r) = .ok (saveSorted r) ∧ load (saveSorted r) = .ok (canonOf r) :=
+  text_round_trip_any r h hi
+
+/-- `regIntsOK` is a separate hypothesis: `RegOK` bounds dict keys, node id and battery level only,
+and a node type, heartbeat, child id or child type beyond the interpreter's digit limit makes
+`json.dumps` raise.  (That reachable registries satisfy it is checked by the correspondence run's
+domain predicate, not proved.)  The unsorted boundary registry satisfies both. -/
+example : RegOK boundaryReg ∧ regIntsOK boundaryReg = true := by decide
+
 /-- The written text is ASCII: its byte length is its character length. -/
 theorem saved_text_ascii (r : PDict Int Node) : (saveBytes r).length = (saveText r).length :=
   JsonText.encodeUtf8_length_ascii _ (JsonText.render_ascii 0 _)
